@@ -254,7 +254,27 @@ Theorem C01_fp3_rounding_uniform :
 Proof. exact fp3_rounding_uniform. Qed.
 Print Assumptions C01_fp3_rounding_uniform.
 
+(** the same for ANY energy axis (the float axis of the implementation is uniform only up to rounding): the
+    column sum of the exact 3-point table is 1 + e1 (1 - (p(k+1) - p(k-1)) / (2 delta)) with damping, 1 without *)
+Theorem C01_fp3_column_sum_any_axis :
+  forall (e1 delta : R) (p : Z -> R) (v k : Z), delta <> 0%R ->
+    cw3 RF e1 delta p v (fun _ => 1%R) k = (1 + axis_defect e1 delta p v k)%R.
+Proof. exact cw3_general. Qed.
+Print Assumptions C01_fp3_column_sum_any_axis.
+
+Theorem C01_fp3_rounding_any_axis :
+  forall (e1 delta : R) (p : Z -> R) (v n le m : Z) (wh r out : Z -> R),
+    2 <= n < 2 ^ 32 -> supp (K:=RF) r 2 (n - 2) -> delta <> 0%R ->
+    col_computed n 3 (fun k => fst (H3 RF e1 delta p v n le m k)) wh r out ->
+    (Rabs (sumZ (K:=RF) 0 (Z.to_nat n) out - sumZ (K:=RF) 0 (Z.to_nat n) r) <=
+     sumZ (K:=RF) 0 (Z.to_nat n) (fun k => Rabs (r k) *
+        (Rabs (axis_defect e1 delta p v k) +
+         colw RF 3 (cw_table 3 (H3 RF e1 delta p v n le m) wh) (fun _ => 1%R) n k))
+     + INR (Z.to_nat n) * A32 3)%R.
+Proof. exact fp3_rounding_axis. Qed.
+Print Assumptions C01_fp3_rounding_any_axis.
+
 (** the constants of [C01_sm_row_kick_rounding]; A32 k = (2k-1)(1+2^-24)^k 2^-150 *)
 Example C01_rounding_constants :
-  (Crow 1 = 1001 / 1000 /\ Crow 2 = 32 / 10 /\ Crow 3 = 82 / 10 /\ Crow 4 = 126 / 10)%R.
-Proof. repeat split. Qed.
+  map CrowQ (1 :: 2 :: 3 :: 4 :: nil) = ((1001 # 1000) :: (32 # 10) :: (82 # 10) :: (126 # 10) :: nil)%Q.
+Proof. reflexivity. Qed.
